@@ -56,12 +56,12 @@ def handle (line : String) : String :=
       | none => "bad-op"
   | ["san"] => "san " ++ ",".intercalate ((sanL []).map toString)
   | ["diag"] =>
-      ";".intercalate (C.fns.map fun t => t.cls ++ "/" ++ toString t.arity ++ "=" ++ primDiag 0 t)
-        ++ ";not/1=" ++ primDiag 3 C.notT
-        ++ ";" ++ ";".intercalate (allOps.map fun k => "op" ++ xopName k ++ "=" ++
+      ";".intercalate (C.fns.map fun t => t.cls ++ "/" ++ toString t.arity ++ "|" ++ primDiag 0 t)
+        ++ ";not/1|" ++ primDiag 3 C.notT
+        ++ ";" ++ ";".intercalate (allOps.map fun k => "op" ++ xopName k ++ "|" ++
               (if C.opT k = [.hole 0, .op (P.img k), .hole 1] then "ok" else "differs:" ++ wordsOfToks (C.opT k)))
-        ++ ";ident=" ++ (if C.identT = idToks "probe" false then "ok" else "differs")
-        ++ ";identInit=" ++ (if C.identInitT = idToks "probe" true then "ok" else "differs")
+        ++ ";ident|" ++ (if C.identT = idToks "probe" false then "ok" else "differs")
+        ++ ";identInit|" ++ (if C.identInitT = idToks "probe" true then "ok" else "differs")
   | ["shapes"] => ";".intercalate (C.fns.map fun t => t.cls ++ "/" ++ toString t.arity ++ "=" ++ sexp (shapeOf t))
   | _ => "bad-op"
 
